@@ -19,4 +19,5 @@ missing = sorted(base - passed)
 print("baseline tests: %d, passed now: %d, baseline tests not passing now: %d" % (len(base), len(passed & base), len(missing)))
 for k in missing[:40]:
     print("  NOT PASSING:", k, "(failed)" if k in failed else "(not run)")
+subprocess.run(["git", "-C", "/repo", "checkout", "go.sum"])
 sys.exit(1 if missing else 0)
